@@ -94,6 +94,55 @@ func init() {
 	})
 
 	register(&Rule{
+		ID: "race.unguarded-candidates", Props: []string{"C15"}, Floor: 0,
+		Doc: "thorough tier only, evidence only (never a verdict): lists every package-level variable of the library that is written outside init at a point where no mutex is held and that is neither in the guarded-by table nor accessed atomically, as candidates for a human to confirm and freeze into the table",
+		Run: func(c *Ctx) {
+			if c.Tier != "thorough" {
+				return
+			}
+			la := newLockAnalysis(c.P)
+			inTable := map[string]bool{}
+			for _, gs := range guardTable {
+				if !gs.field {
+					inTable[gs.pkg+"."+gs.name] = true
+				}
+			}
+			ax := buildAtomicIndex(c.P)
+			n := 0
+			for _, pk := range c.P.Pkgs {
+				sp := c.P.SSA[pk.PkgPath]
+				rp := relPkg(pk.PkgPath)
+				if sp == nil || strings.HasPrefix(rp, "example") || strings.HasPrefix(rp, "tests") || strings.HasPrefix(rp, "pkg/") {
+					continue
+				}
+				var names []string
+				for name := range sp.Members {
+					names = append(names, name)
+				}
+				sort.Strings(names)
+				for _, name := range names {
+					g, ok := sp.Members[name].(*ssa.Global)
+					if !ok || inTable[rp+"."+name] {
+						continue
+					}
+					if _, isAtomic := ax.vars[g]; isAtomic {
+						continue
+					}
+					for _, a := range accessesOfGlobal(c.P, g, la.funcs) {
+						if !a.write || len(la.held(a.ins)) > 0 {
+							continue
+						}
+						n++
+						c.Info(fmt.Sprintf("%s.%s / unguarded %s in %s", rp, name, a.what, fnKey(a.fn)), instrPos(a.ins), "package variable written with no lock held (not in the guarded-by table, not atomic)")
+						break
+					}
+				}
+			}
+			c.Stat("unguarded_written_globals", n)
+		},
+	})
+
+	register(&Rule{
 		ID: "race.no-mutable-escape", Props: []string{"C15"}, Floor: 1,
 		Doc: "an inner map obtained by looking up a guarded map-of-maps that is mutated in place somewhere (map store / delete on the looked-up value) is never iterated, indexed or measured at a point where the guarding mutex is not held",
 		Run: func(c *Ctx) {
